@@ -97,20 +97,31 @@ def _nullable(it):
 
 
 def has_nullable_component(ast):
-    """Some top-level component (run of tokens between separators / tree wildcards / the ends)
-    consists only of tokens that can match the empty string (`/*`, `$/x`, `a/<b:0,1>/c`)."""
+    """Some component (run of tokens between separators / tree wildcards / the ends of its
+    concatenation, at any nesting depth) consists only of tokens that can match the empty string
+    (`/*`, `$/x`, `a/<b:0,1>/c`, `</*:1>`, `/**/{*/**}`)."""
     if not ast:
         return False
-    seg = []
-    segs = []
-    for it in gen.nonflag(ast):
-        if it[0] in ("sep", "tree"):
-            segs.append(seg)
-            seg = []
-        else:
-            seg.append(it)
-    segs.append(seg)
-    return any(s and all(_nullable(x) for x in s) for s in segs)
+
+    def rec(g):
+        seg = []
+        segs = []
+        for it in gen.nonflag(g):
+            if it[0] in ("sep", "tree"):
+                segs.append(seg)
+                seg = []
+            else:
+                seg.append(it)
+        segs.append(seg)
+        if any(s and all(_nullable(x) for x in s) for s in segs):
+            return True
+        for it in gen.nonflag(g):
+            if it[0] == "alt" and any(rec(b) for b in it[1]):
+                return True
+            if it[0] == "rep" and rec(it[1]):
+                return True
+        return False
+    return rec(ast)
 
 
 def plain_tree_tail(ast):
